@@ -69,6 +69,8 @@ def bound(tier):
 def shards(tier, seed):
     out = []
     Ls = (6,) if tier == "quick" else (6, 8)
+    for n_out in (1, 2):
+        out.append(dict(name="large_kwargs/out%d" % n_out, w="large", L=12, n_out=n_out, weight=400))
     for w in ("marginalize", "ablate", "space", "marginalize_annotations", "ablate_annotations", "apply_pairwise",
               "apply_product", "dls"):
         for L in Ls:
@@ -429,9 +431,76 @@ def run_dls(rec, sh, tier, seed):
     rec.sample(dict(w="dls", L=L, wrappers=["marginalize", "ablate", "space"], func="deep_lift_shap(n_shuffles=3, random_state=5)"))
 
 
+def run_large(rec, sh, tier, seed):
+    """Sizes beyond the default batch size / 8-bit counts (40 examples x 20 shuffles, 300 examples), keyword routing through
+    additional_func_kwargs, non-contiguous input views, tuples vs lists for args."""
+    from tangermeme.ablate import ablate
+    from tangermeme.ersatz import multisubstitute, shuffle, substitute
+    from tangermeme.marginalize import marginalize
+    from tangermeme.space import space
+    L, n_out = sh["L"], sh["n_out"]
+    model = IdModel(n_out)
+    rs = numpy.random.RandomState(3 + seed)
+    for B in (40, 300):
+        codes = rs.randint(0, A, (B, L))
+        X = ohe(codes, A)
+        args = [torch.arange(B, dtype=torch.float32)[:, None] + 0.5]
+
+        def exp_rows(Xq):
+            return _stack([[o[0] for o in _pred1(model, Xq[i:i + 1], [args[0][i:i + 1]])] for i in range(B)])
+        # ablate with the DEFAULT n (20) and default batch size
+        if B == 40:
+            st, val = call(ablate, model, X, 2, 9, args=tuple(args), random_state=4, device="cpu")
+            case = dict(w="ablate", B=B, L=L, n_out=n_out, n="default(20)", batch_size="default(32)")
+            rec.case(1, 1)
+            if st != "ok":
+                rec.violation("ablate:raises", case, observed=val)
+            else:
+                Xs = shuffle(X, start=2, end=9, n=20, random_state=4)
+                ea = _stack([_stack([[o[0] for o in _pred1(model, Xs[i, j:j + 1], [args[0][i:i + 1]])] for j in range(20)]) for i in range(B)])
+                _cmp(rec, "ablate:before", case, _aslist(val[0]), exp_rows(X)) and _cmp(rec, "ablate:after", case, _aslist(val[1]), ea)
+        # marginalize: keywords routed through additional_func_kwargs and/or **kwargs; list vs tuple args; default batch size
+        Xp = substitute(X, "GAT", start=4)
+        for ci, (afk, kw) in enumerate(((dict(batch_size=7, device="cpu"), dict(args=args)), (dict(device="cpu", args=tuple(args)), dict(batch_size=33)),
+                                        ({}, dict(args=args, device="cpu")), (dict(args=args), dict(device="cpu", batch_size=256)))):
+            st, val = call(marginalize, model, X, "GAT", start=4, additional_func_kwargs=dict(afk), **kw)
+            case = dict(w="marginalize", B=B, L=L, n_out=n_out, additional_func_kwargs=sorted(afk), kwargs=sorted(kw))
+            rec.case(1, 1)
+            if st != "ok":
+                rec.violation("marginalize:raises:kwargs_routing", case, observed=val)
+            else:
+                _cmp(rec, "marginalize:before:kwargs_routing", case, _aslist(val[0]), exp_rows(X)) and \
+                    _cmp(rec, "marginalize:after:kwargs_routing", case, _aslist(val[1]), exp_rows(Xp))
+        # non-contiguous view of the same data
+        big = torch.zeros(B, A, 2 * L)
+        big[:, :, ::2] = X
+        Xv = big[:, :, ::2]
+        st, val = call(marginalize, model, Xv, "GAT", start=4, args=args, device="cpu")
+        case = dict(w="marginalize", B=B, L=L, n_out=n_out, input="strided view")
+        rec.case(1, 1)
+        if st != "ok":
+            rec.violation("marginalize:raises:strided_input", case, observed=val)
+        else:
+            _cmp(rec, "marginalize:before:strided_input", case, _aslist(val[0]), exp_rows(X)) and _cmp(rec, "marginalize:after:strided_input", case, _aslist(val[1]), exp_rows(Xp))
+        # space with a larger spacing grid (9 rows) and keywords through additional_func_kwargs
+        grid = [[g] for g in range(0, 9)]
+        st, val = call(space, model, X, ["GA", "T"], grid, start=0, additional_func_kwargs=dict(args=args, device="cpu", batch_size=31))
+        case = dict(w="space", B=B, L=L, n_out=n_out, spacing_rows=len(grid))
+        rec.case(1, 1)
+        if st != "ok":
+            rec.violation("space:raises", case, observed=val)
+        else:
+            ea = _stack([_stack([[o[0] for o in _pred1(model, multisubstitute(X[i:i + 1], ["GA", "T"], g, start=0), [args[0][i:i + 1]])] for g in grid]) for i in range(B)])
+            _cmp(rec, "space:after", case, _aslist(val[1]), ea)
+    rec.sample(dict(w="large_kwargs", B=[40, 300], L=L, n_out=n_out))
+
+
 def run_shard(sh, tier, seed):
     rec = Recorder(PID, sh["name"])
     w = sh["w"]
+    if w == "large":
+        run_large(rec, sh, tier, seed)
+        return rec.result()
     if w == "marginalize":
         run_marginalize(rec, sh, tier, seed)
     elif w == "ablate":
